@@ -21,7 +21,7 @@ func (p *planner) analyzeScript() {
 		if ppl.LabelFilter != nil {
 			p.simpleLabelOperation[i] = true
 		}
-		if ppl.Parser != nil {
+		if ppl.Parser != nil || ppl.Drop != nil || ppl.LabelFormat != nil {
 			break
 		}
 	}
